@@ -16,7 +16,7 @@ LEVEL_TEXT = ("Two halves. (A) Logic of object lifetime in libavoid's Router, ma
               "with the libraries' assertions on; leaks are attributed per case; after every Router operation the router's "
               "public live sets, endpoint anchors and attachment counts are compared with the Lean model.")
 LEVEL_NOTE = ("A theorem cannot exhibit a C++ use-after-free: half (A) is about the hand-written model, tied to the code only by "
-              "the sampled correspondence of half (B) (m_obstacles / connRefs ids, ConnRef::endpointConnEnds anchors, "
+              "the sampled correspondence of half (B) (m_obstacles / connRefs ids, ConnRef::endpointConnEnds anchors, ConnRef::routingCheckpoints counts, "
               "Obstacle::attachedConnectors counts after every op; pins are not publicly observable and are model-only). Half (B) "
               "is testing under sanitizers, not proof: absence of reports on the sampled histories only. 'Legal' for the "
               "Router is the model's decidable strict predicate (documented preconditions minus the known-finding classes, "
@@ -32,7 +32,7 @@ EXPLANATION = ("(A) Lean: Model/Lifecycle.lean is an executable model of Router 
                "assertion / use-after-free in the model (former K3/K5, repaired in /repo, are now proved legal and fault-free). (B) harness/c15.cpp generates strictly legal histories "
                "(5-40 ops quick, up to 60 thorough; both routing modes; transactions on/off and switched; deleting shapes whose "
                "pins are in use; deleting connectors inside a pending transaction; move+delete in one transaction; deleting "
-               "junctions; destroying the router with queued actions; with transactions off also deleteJunction, moving obstacles with "
+               "junctions; destroying the router with queued actions; setRoutingCheckpoints with 0-3 checkpoints, repeatedly on the same connector;  with transactions off also deleteJunction, moving obstacles with "
                "attached connectors, the 3-argument ConnRef constructor and new pins on attached shapes) plus vpsc/cola/topology/dialect lifecycles, runs them "
                "under ASan+UBSan+LSan with assertions on, calls __lsan_do_recoverable_leak_check() after every case, and "
                "driver_c15 replays each Router history in the model, checks Legal for every op and compares the observable "
@@ -63,8 +63,9 @@ KF_TIMEOUT = {"kf-cola-makefeasible-hang": 15}
 
 
 def plan(tier, seed, searching):
-    steps = [dict(hargs=["--seed", str(seed), "--tier", tier, "--scale", "8" if searching else "1"], label="main",
-                  timeout=3000)]
+    base = ["--seed", str(seed), "--tier", tier, "--scale", "8" if searching else "1"]
+    steps = [dict(hargs=base + ["--mode", "router"], label="router", timeout=3000),
+             dict(hargs=base + ["--mode", "libs"], label="libs", timeout=3000)]
     if os.environ.get("C15_SKIP_KF"):        # (debug) main classes only
         return steps
     for m in KF_MODES:
